@@ -20,6 +20,8 @@ POISON = {
     'oc_tokens.c': b'void f(void)\n{\n   id a = @[ @1, @2 ];\n   SEL s = @selector(foo:);\n}\n',
     'oc_msg.m': b'@implementation A\n- (void) f {\n  [self foo:1 bar:2];\n}\n@end\n',
     'qt.cpp': b'void f()\n{\n   connect(a, SIGNAL(x(int , int)), b, SLOT(y( int,int )));\n}\n',
+    'qt_multi.cpp': b'void Test::init()\n{\n\tconnect( m_ppcCom,\n\t         SIGNAL(sigReceivedBundle(QString)),\n\t         SLOT(doProcessBundle(QString)) );\n\tconnect( m_ppcCom,\n\t         SIGNAL(sigReceivedBundle),\n\t         SLOT(doProcessBundle));\n}\n',
+    'qt_victim.cpp': b'void g()\n{\n\tcall( a , b );\n\tconnect( x,\n\t         SIGNAL(s(int)),\n\t         SLOT(t(int)) );\n}\n',
     'includes.cpp': b'#include "z.h"\n#include "a.h"\n#include <m.h>\nint x;\n',
     'ifdef_whole.h': b'#ifndef A_H\n#define A_H\nint a;\n#endif\n',
     'unbalanced_if.c': b'#if A\nint a;\n#if B\nint b;\n#endif\n',
